@@ -109,37 +109,75 @@ example : (some [45, 45] = none ∨ ([10] : Bytes) = [10]) ∧
 
 /-! ### the "binary file matches" block -/
 
-/-- Full statement: also with bare binary-file messages among the blocks, the single-threaded output is the
-blocks joined by the separator line. -/
-def C08_binary_full : Prop :=
-  ∀ (sep : Option Bytes) (term : Bytes) (items : List (Bytes × Bool)),
-    outSeqB sep term items = joinSep (sepLine sep term) (nonempty (items.map (·.1)))
-
-/-- It fails on the current tree (known finding `binary-file-message-not-separated-single-threaded`):
-`rg -j1 -C1 needle a.txt b.bin c.txt` prints no `--` before `b.bin: binary file matches …` (and `--heading`
-no blank line), `-jN` does. -/
-theorem C08_binary_full_fails : ¬ C08_binary_full := by
-  intro h
-  have := h (some [45, 45]) [10] [([97, 10], false), ([98, 10], true)]
-  revert this
-  decide
-
-/-- **Proved part** (guard: no block is a bare binary-file message): `outSeqB` is `outSeq`, so all of the
-above applies. -/
-theorem C08_binary_partial (sep : Option Bytes) (term : Bytes) (items : List (Bytes × Bool))
-    (hg : ∀ it ∈ items, it.2 = false) : outSeqB sep term items = outSeq sep term (items.map (·.1)) := by
-  unfold outSeqB outSeq
-  have key : ∀ (items : List (Bytes × Bool)) (st : Seq), (∀ it ∈ items, it.2 = false) →
+/-- A bare binary-file message is separated like every other block, also single-threaded (the revert of
+302ce55, which left it unseparated, is a mutant): the output is the blocks joined by the separator line. -/
+theorem C08_binary (sep : Option Bytes) (term : Bytes) (items : List (Bytes × Bool)) :
+    outSeqB sep term items = joinSep (sepLine sep term) (nonempty (items.map (·.1))) := by
+  have key : ∀ (st : Seq) (it : Bytes × Bool), seqPrintB sep term st it = seqPrint sep term st it.1 := by
+    intro st it
+    unfold seqPrintB seqPrint
+    cases it.2 <;> simp
+  have fold : ∀ (items : List (Bytes × Bool)) (st : Seq),
       items.foldl (seqPrintB sep term) st = (items.map (·.1)).foldl (seqPrint sep term) st := by
     intro items
     induction items with
-    | nil => intro st _; rfl
-    | cons it rest ih =>
-      intro st hg
-      have h0 : it.2 = false := hg it List.mem_cons_self
-      simp only [List.foldl_cons, List.map_cons, seqPrintB, h0, Bool.false_eq_true, if_false]
-      exact ih _ (fun x hx => hg x (List.mem_cons_of_mem _ hx))
-  rw [key items {} hg]
+    | nil => intro st; rfl
+    | cons it rest ih => intro st; simp only [List.foldl_cons, List.map_cons, key]; exact ih _
+  unfold outSeqB
+  rw [fold]
+  exact seq_output sep term _
+
+/-! ### the `--stats` trailer -/
+
+/-- Full statement: the trailer follows the blocks directly in both drivers (separators only between blocks). -/
+def C08_stats_full : Prop :=
+  ∀ (sep : Option Bytes) (bufs : List Bytes) (trailer : Bytes),
+    outParStats sep bufs trailer = joinSep (sepLine sep [10]) (nonempty bufs) ++ trailer
+
+/-- It fails on the current tree (known finding `stats-trailer-separated-like-a-block-multithreaded`):
+`rg -j2 --heading --stats` writes the blank separator line between the last block and the trailer
+(`-C1`: a `--` line); `-j1` does not. -/
+theorem C08_stats_full_fails : ¬ C08_stats_full := by
+  intro h
+  have := h (some [45, 45]) [[97, 10]] [10, 49, 10]
+  revert this
+  decide
+
+/-- **Proved part** (guard: no file separator configured, or nothing was printed before the trailer): the
+multi-threaded trailer follows the blocks directly, as single-threaded. -/
+theorem C08_stats_partial (sep : Option Bytes) (bufs : List Bytes) (trailer : Bytes)
+    (hg : sep = none ∨ nonempty bufs = []) :
+    outParStats sep bufs trailer = joinSep (sepLine sep [10]) (nonempty bufs) ++ trailer := by
+  unfold outParStats
+  rw [par_output]
+  have hne : nonempty (bufs ++ [trailer]) = nonempty bufs ++ nonempty [trailer] := by
+    simp [nonempty, List.filter_append]
+  rw [hne]
+  rcases hg with h | h
+  · subst h
+    -- without a separator, joining is concatenation
+    have hj : ∀ (bs : List Bytes), joinSep (sepLine none [10]) bs = bs.flatten := by
+      intro bs
+      induction bs with
+      | nil => rfl
+      | cons b rest ih =>
+        cases rest with
+        | nil => simp [joinSep]
+        | cons c rest' => simp only [joinSep, sepLine, List.append_nil] at ih ⊢; rw [ih]; simp
+    rw [hj, hj]
+    cases ht : trailer with
+    | nil => simp [nonempty]
+    | cons x xs => simp [nonempty]
+  · rw [h]
+    cases ht : trailer with
+    | nil => simp [nonempty, joinSep]
+    | cons x xs => simp [nonempty, joinSep]
+
+/-- Single-threaded, the trailer always follows the blocks directly. -/
+theorem seq_stats (sep : Option Bytes) (term : Bytes) (blks : List Bytes) (trailer : Bytes) :
+    outSeqStats sep term blks trailer = joinSep (sepLine sep term) (nonempty blks) ++ trailer := by
+  unfold outSeqStats
+  rw [seq_output]
 
 /-! ### the block grammar parses uniquely -/
 
